@@ -13,10 +13,12 @@ function of the same operands, a guard that is absent with nothing unexplained
 in its place) -> VIOLATION; not recognised -> ANALYSIS-INCOMPLETE."""
 import ast
 import copy
+import os
+import re
 
 from ..cfg import ENTRY, EXIT, Assume, stmt_defs
-from ..core import (call_name, const_value, kwarg, names_loaded, params,
-                    target_names, u, walk_expr, walk_local)
+from ..core import (AnalysisIncomplete, Module, _canon_tree, call_name, const_value, kwarg,
+                    names_loaded, params, target_names, u, walk_expr, walk_local)
 from ..cykernel import (Kernel, check_bounds, check_elem_type_temps,
                         check_prange, check_zero_before_accumulate,
                         norm_extent)
@@ -43,7 +45,9 @@ EXPLANATION = (
     'raise (directly or inside a module helper that is called), on every path '
     'to a return of the preparation step (the out facts on every path that '
     'returns the caller\'s buffer), and the default buffer is a 1-D float64 '
-    'allocation of n_samples cells made only when out is None; (D1) every '
+    'allocation of n_samples cells made only when out is None and made by this very call '
+    '(reaching definitions of the returned object followed through plain copies: an object a '
+    'module-level variable holds on entry is shared between calls; C13.D0.validation.alloc.fresh); (D1) every '
     'typed-buffer subscript in the boundscheck(False) kernels is in range in '
     'every dimension (loop ranges vs extents through equalities harvested from '
     'cdef initialisers and asserts); (D2) inside prange each iteration writes '
@@ -60,7 +64,10 @@ EXPLANATION = (
     'has a double operand (C usual arithmetic conversions: a difference or '
     'square of two cells of the element type is computed in that type - int32/'
     'int64 wrap, float32 rounds/overflows - and only the result is widened; '
-    'C13.D5.formula.widen), and the hamming comparison is carried out in a C type that '
+    'C13.D5.formula.widen), no typecast / C-typed temporary / C-typed parameter of an inlined cdef helper narrows a value '
+    'on its way into the term (.narrowing), a running value kept in a C scalar local is judged as the cell it is stored to '
+    'and must be a double (.accumulator-type), every return of a kernel lies behind the accumulation unless there is no row '
+    '(.exit), and the hamming comparison is carried out in a C type that '
     'represents every value of every specialisation of the fused element type (casts, '
     'C-typed temporaries and the usual arithmetic conversions followed per specialisation: '
     'int64/uint64 through double or any narrower type makes different elements compare '
@@ -68,6 +75,175 @@ EXPLANATION = (
     '_get_distance_method evaluated per name). Floating-point exactness and '
     'memory layouts are delegated to Cython typed-buffer indexing (no raw '
     'pointers: checked).')
+
+# ---------------------------------------------------------------------------
+# front-end extension (candidate for promotion to sa/pyxfront.py)
+#
+# sa/pyxfront.py adapts the Cython parse tree node type by node type and refuses
+# a module that contains a node type it has no adapter for.  Two constructs that
+# may legitimately appear in libdist.pyx are adapted here so that the rules get to
+# see such a module at all (parsing only - nothing is compiled or run):
+#   * `global n` / `nonlocal n`       -> ast.Global / ast.Nonlocal
+#   * `cdef [inline] T f(T1 a, ...) [nogil]: body`  -> FunctionDef with cy_cdef=True,
+#     cy_argtypes, cy_return, cy_nogil.  A C-typed scalar parameter converts its
+#     argument to the declared type at the call and `return e` converts e to the
+#     declared return type; both conversions are written out as typecasts on the
+#     reads of the parameter / on the returned expression (identities inside the
+#     function), so that a rule - or the helper inliner, which substitutes arguments
+#     for parameters textually - never loses a conversion.
+
+class _Shim:
+    pass
+
+
+def _c_scalar(t):
+    """CyType of a C arithmetic scalar (a conversion happens at the binding)."""
+    return t is not None and not t.is_buffer and not getattr(t, 'pointer', False) and _ctype_info(t.text) is not None
+
+
+class _WrapParams(ast.NodeTransformer):
+    def __init__(self, types):
+        self.types = types
+
+    def visit_Name(self, n):
+        if isinstance(n.ctx, ast.Load) and n.id in self.types:
+            c = ast.Call(func=ast.Name(id='__cy_cast__', ctx=ast.Load()),
+                         args=[ast.Constant(value=self.types[n.id]), n], keywords=[])
+            return ast.copy_location(c, n)
+        return n
+
+    def visit_FunctionDef(self, n):
+        return n
+
+    visit_Lambda = visit_FunctionDef
+
+
+def _x_global(self, cy):
+    return ast.Global(names=[str(x) for x in cy.names])
+
+
+def _x_nonlocal(self, cy):
+    return ast.Nonlocal(names=[str(x) for x in cy.names])
+
+
+def _x_cfuncdef(self, cy):
+    d = cy.declarator
+    while type(d).__name__ != 'CFuncDeclaratorNode':
+        if type(d).__name__ != 'CNameDeclaratorNode' and hasattr(d, 'base'):
+            d = d.base
+        else:
+            self._unsupported(cy)
+    if getattr(d, 'has_varargs', False) or getattr(cy, 'overridable', False) or cy.body is None:
+        self._unsupported(cy)
+    sh = _Shim()
+    sh.args, sh.name, sh.star_arg, sh.starstar_arg, sh.body, sh.pos = d.args, self._declname(d.base), None, None, cy.body, cy.pos
+    fn = self.s_DefNode(sh)
+    fn.cy_cdef = True
+    fn.cy_nogil = bool(getattr(d, 'nogil', False))
+    fn.cy_inline = 'inline' in (getattr(cy, 'modifiers', None) or [])
+    try:
+        fn.cy_return = self.cytype(cy.base_type)
+    except AnalysisIncomplete:
+        fn.cy_return = None
+    if type(cy.declarator).__name__ != 'CFuncDeclaratorNode':
+        fn.cy_return = None               # pointer / reference result
+    rebound = {t for n in ast.walk(fn) for t in ([n.id] if isinstance(n, ast.Name) and isinstance(n.ctx, (ast.Store, ast.Del)) else [])}
+    types = {p: t.text for p, t in fn.cy_argtypes.items() if _c_scalar(t) and p not in rebound}
+    if types:
+        fn.body = [_WrapParams(types).visit(s) for s in fn.body]
+    if _c_scalar(fn.cy_return):
+        for n in ast.walk(fn):
+            if isinstance(n, ast.Return) and n.value is not None:
+                n.value = ast.copy_location(ast.Call(func=ast.Name(id='__cy_cast__', ctx=ast.Load()),
+                                                     args=[ast.Constant(value=fn.cy_return.text), n.value], keywords=[]), n.value)
+    return fn
+
+
+def _adapter_class():
+    from .. import pyxfront
+
+    class AdapterX(pyxfront._Adapter):
+        pass
+    for name, f in (('s_GlobalNode', _x_global), ('s_NonlocalNode', _x_nonlocal), ('s_CFuncDefNode', _x_cfuncdef)):
+        if not hasattr(pyxfront._Adapter, name):          # once promoted, the front end's own adapter is used
+            setattr(AdapterX, name, f)
+    return AdapterX
+
+
+_EXTRA_NODES = ('GlobalNode', 'NonlocalNode', 'CFuncDefNode')
+
+
+def parse_pyx_x(path, rel):
+    """sa.pyxfront.parse_pyx with the additional adapters above."""
+    from .. import pyxfront
+    ad = _adapter_class()(rel)
+    tree = ad.module(pyxfront._cy_parse(path, rel))
+    ast.fix_missing_locations(tree)
+    return tree
+
+
+def load_libdist(repo):
+    """repo.mod(LD); when the front end refused the file only because of a
+    construct adapted above, the file is parsed again with the extended
+    adapter and put through the same normalisation as every other module."""
+    try:
+        return repo.mod(LD)
+    except AnalysisIncomplete:
+        err = str(dict(repo.errors).get(LD) or '')
+        if 'unsupported Cython construct' not in err or not any(t in err for t in _EXTRA_NODES):
+            raise
+    path = os.path.join(repo.root, LD)
+    try:
+        with open(path, encoding='utf-8') as f:
+            src = f.read()
+        tree = _canon_tree(parse_pyx_x(path, LD))
+    except AnalysisIncomplete:
+        raise
+    except Exception as e:
+        raise AnalysisIncomplete('anchor file %s missing or unparsable (%r)' % (LD, e))
+    repo.errors = [x for x in repo.errors if x[0] != LD]
+    repo.modules[LD] = Module(LD, src, tree, 'pyx')
+    if LD not in repo.units:
+        repo.units.append(LD)
+    if os.environ.get('VERIF_NO_RENAME') != '1':
+        repo._normalise(LD)
+    _type_inlined_bindings(repo, repo.modules[LD])
+    return repo.modules[LD]
+
+
+_INLINE_TAG = re.compile(r'^(.+)__i\d+$')
+
+
+def _type_inlined_bindings(repo, mod):
+    """The helper inliner (sa/inline.py) binds a non-trivial argument to a fresh
+    temporary `<param>__iN = <argument>` and copies the helper's own statements
+    with its locals renamed `<local>__iN`.  When the helper is a cdef function
+    these are C variables of the declared type (the parameter of a C function is
+    a C local of the callee: thread-private, converted at the binding); the
+    declarations are carried over to the caller so that the kernel rules judge
+    them as what they are."""
+    for fname, helpers in (getattr(repo, 'inlined', {}).get(LD) or {}).items():
+        fn = mod.functions.get(fname)
+        if fn is None or not hasattr(fn, 'cy_locals'):
+            continue
+        cands = {}
+        for h in helpers:
+            hf = mod.functions.get(h)
+            if hf is None or not getattr(hf, 'cy_cdef', False):
+                continue
+            for p, t in list(hf.cy_argtypes.items()) + list(hf.cy_locals.items()):
+                cands.setdefault(p, set()).add(t.text)
+                cands.setdefault((p, t.text), t)
+        for n in ast.walk(fn):
+            if isinstance(n, ast.AnnAssign) and hasattr(n, 'cy_type') and isinstance(n.target, ast.Name):
+                fn.cy_locals.setdefault(n.target.id, n.cy_type)
+        for n in ast.walk(fn):
+            if isinstance(n, ast.Assign) and len(n.targets) == 1 and isinstance(n.targets[0], ast.Name):
+                nm = n.targets[0].id
+                m = _INLINE_TAG.match(nm)
+                if m and nm not in fn.cy_locals and nm not in fn.cy_argtypes and len(cands.get(m.group(1), ())) == 1:
+                    fn.cy_locals[nm] = cands[(m.group(1), next(iter(cands[m.group(1)])))]
+
 
 PARAM_ONLY = frozenset({'PARAM'})
 _ORDER_OPS = (ast.Eq, ast.NotEq, ast.Lt, ast.LtE, ast.Gt, ast.GtE)
@@ -537,6 +713,96 @@ def _alloc_verdict(fi, call, X, y, ranks):
     return 'far', 'shape/dtype not recognised'
 
 
+def _module_state(mod, fn):
+    """Names that denote module-level variables inside `fn`: declared `global`
+    there, or bound by an assignment at module level and never bound in `fn`
+    (functions, classes and imports are not variables).  An object reached
+    through such a name exists before the call and survives it."""
+    declared = {nm for n in walk_local(fn) if isinstance(n, ast.Global) for nm in n.names}
+    local = set(params(fn))
+    for n in walk_local(fn):
+        if isinstance(n, ast.stmt):
+            local |= set(stmt_defs(n))
+    out = set(declared)
+    for s in mod.tree.body:
+        tgts = []
+        if isinstance(s, ast.Assign):
+            tgts = s.targets
+        elif isinstance(s, (ast.AnnAssign, ast.AugAssign)):
+            tgts = [s.target]
+        for t in tgts:
+            for nm in target_names(t):
+                if nm not in local or nm in declared:
+                    out.add(nm)
+    return out
+
+
+def _origins(fi, site, dv, state, depth=6):
+    """Where the object bound by `site: name = dv` comes from, following plain
+    copies `a = b` along the reaching definitions: yields ('param', site, name) |
+    ('state', site, name) (the value a module-level variable has on entry) |
+    ('unbound', site, name) | ('opaque', site, None) | ('expr', site, value)."""
+    if isinstance(dv, ast.Name) and isinstance(dv.ctx, ast.Load) and depth > 0:
+        try:
+            ds = fi.defs_of_use(dv)
+        except Exception:
+            ds = None
+        if ds is None:
+            yield ('expr', site, dv)
+            return
+        if not ds:
+            yield (('state' if dv.id in state else 'expr'), site, dv.id if dv.id in state else dv)
+            return
+        for d in ds:
+            if d == 'PARAM':
+                yield ('param', site, dv.id)
+            elif d == 'UNBOUND':
+                yield (('state' if dv.id in state else 'unbound'), site, dv.id)
+            else:
+                v2 = fi.def_value(d, dv.id) if isinstance(d, (ast.Assign, ast.AnnAssign)) else None
+                if v2 is None:
+                    yield ('opaque', d, None)
+                else:
+                    yield from _origins(fi, d, v2, state, depth - 1)
+        return
+    yield ('expr', site, dv)
+
+
+def _view_root(e):
+    """Name of the object of which `e` is (a view of): the name itself, a
+    basic slice `N[a:b]` / `N[a:b, c:d]` / `N[...]` of it (slices only: an integer
+    index would select a row, a fancy index copies)."""
+    while isinstance(e, ast.Subscript):
+        parts = e.slice.elts if isinstance(e.slice, ast.Tuple) else [e.slice]
+        if not all(isinstance(p, ast.Slice) or (isinstance(p, ast.Constant) and p.value is Ellipsis) for p in parts):
+            return None
+        e = e.value
+    return e.id if isinstance(e, ast.Name) else None
+
+
+def _state_buffer(ck, mod, fi, prep, PREP, r, site, name, state, view=None):
+    """The buffer handed back is (a view of) the object a module-level variable
+    holds on entry: it was not allocated by this call."""
+    rule = 'C13.D0.validation.alloc.fresh'
+    # hand-over of ownership (the variable is rebound after the object was taken and before
+    # the return) is not decided here
+    later = [rb for rb in _rebinds(fi, name) if rb is not site and isinstance(site, ast.stmt)
+             and fi.cfg.reachable(site, rb) and fi.cfg.reachable(rb, r)]
+    if later:
+        ck.missing(rule, '%s returns the object of module-level variable `%s` and rebinds that variable afterwards (%s): '
+                   'ownership hand-over not analysed' % (PREP, name, mod.loc(later[0])))
+        return
+    stored = [rb for rb in _rebinds(fi, name)]
+    ck.bad(rule, mod, site, PREP, 'result buffer taken from module-level variable `%s`' % name,
+           'when the caller supplies no buffer, %s returns %s module-level variable `%s` %s instead of an array allocated by this '
+           'call%s: the arrays returned by different calls (other targets, other metrics, other data of the same length) are '
+           'one and the same memory, so a result the caller still holds is overwritten by the next call. The default buffer '
+           'must be allocated per call' % (
+               PREP, ('`%s`, a view of' % view) if view else 'the object that',
+               name, 'holds' if not view else '', 
+               (' (the function itself keeps its allocation there at %s for later calls)' % mod.loc(stored[0])) if stored else ''))
+
+
 def d0_validation(ck, mod, PREP, kernels=()):
     rule = 'C13.D0.validation'
     prep = mod.func(PREP)
@@ -572,6 +838,7 @@ def d0_validation(ck, mod, PREP, kernels=()):
 
     # ---- what object does each return hand back?
     param_rets, allocs, n_ret = [], [], 0
+    state = _module_state(mod, prep)
     for p in fi.cfg.pred.get(EXIT, []):
         if not isinstance(p, (ast.Return, ast.Raise)):
             ck.bad('C13.D4.same-buffer', mod, prep, PREP, 'implicit return None',
@@ -593,33 +860,61 @@ def d0_validation(ck, mod, PREP, kernels=()):
                         ck.bad('C13.D4.same-buffer', mod, r, PREP, u(r),
                                'the preparation step returns parameter `%s`, not the output buffer' % v.id)
                 elif site == 'UNBOUND':
-                    ck.bad('C13.D4.same-buffer', mod, r, PREP, u(r), 'the returned name may be unbound')
+                    if v.id in state:
+                        n_ret += 1
+                        _state_buffer(ck, mod, fi, prep, PREP, r, r, v.id, state)
+                    else:
+                        ck.bad('C13.D4.same-buffer', mod, r, PREP, u(r), 'the returned name may be unbound')
                 else:
                     objs.append((site, fi.def_value(site, v.id)))
         else:
             objs.append((r, v))
-        for site, dv in objs:
+        for site0, dv0 in objs:
             n_ret += 1
-            if dv is None:
+            if dv0 is None:
                 ck.missing('C13.D4.same-buffer', 'definition `%s` of the returned buffer at %s is not a plain assignment'
-                           % (u(site)[:80], mod.loc(site)))
+                           % (u(site0)[:80], mod.loc(site0)))
                 continue
-            ex = Expander(fi)
-            edv = ex.expand(dv)
-            if isinstance(edv, ast.Call) and call_name(edv) in ALLOCATORS:
-                allocs.append((site, dv))
-                continue
-            closed = _closed(edv, {X, y} | onames)
-            if names_loaded(edv) & onames and r not in param_rets:
-                param_rets.append(r)      # derived from the caller's buffer: the out facts are still due
-            detail = ('the preparation step must hand back the caller\'s `out` object itself; a '
-                      'converted copy (ascontiguousarray/astype/reshape-copy) makes the kernel '
-                      'fill a temporary and the caller\'s buffer never holds the result')
-            if closed:
-                ck.bad('C13.D4.same-buffer', mod, site, PREP, u(site), detail)
-            else:
-                ck.missing('C13.D4.same-buffer', 'returned object `%s` at %s is not recognised (%s)'
-                           % (u(dv)[:100], mod.loc(site), detail[:70]))
+            for kind, site, dv in _origins(fi, site0, dv0, state):
+                if kind == 'param':
+                    if dv in onames:
+                        if r not in param_rets:
+                            param_rets.append(r)
+                        ck.ok('C13.D4.same-buffer', mod, r, u(r), 'returns the caller\'s buffer object')
+                    else:
+                        ck.bad('C13.D4.same-buffer', mod, r, PREP, u(r),
+                               'the preparation step returns parameter `%s`, not the output buffer' % dv)
+                    continue
+                if kind == 'unbound':
+                    ck.bad('C13.D4.same-buffer', mod, r, PREP, u(r), 'the returned name may be unbound')
+                    continue
+                if kind == 'opaque':
+                    ck.missing('C13.D4.same-buffer', 'definition `%s` of the returned buffer at %s is not a plain assignment'
+                               % (u(site)[:80], mod.loc(site)))
+                    continue
+                if kind == 'state':
+                    _state_buffer(ck, mod, fi, prep, PREP, r, site, dv, state)
+                    continue
+                ex = Expander(fi)
+                edv = ex.expand(dv)
+                if isinstance(edv, ast.Call) and call_name(edv) in ALLOCATORS:
+                    allocs.append((site, dv if isinstance(dv, ast.Call) else edv))
+                    continue
+                root = _view_root(edv)
+                if root is not None and root in state and root not in (X, y) and root not in onames:
+                    _state_buffer(ck, mod, fi, prep, PREP, r, site, root, state, view=u(edv))
+                    continue
+                closed = _closed(edv, {X, y} | onames)
+                if names_loaded(edv) & onames and r not in param_rets:
+                    param_rets.append(r)      # derived from the caller's buffer: the out facts are still due
+                detail = ('the preparation step must hand back the caller\'s `out` object itself; a '
+                          'converted copy (ascontiguousarray/astype/reshape-copy) makes the kernel '
+                          'fill a temporary and the caller\'s buffer never holds the result')
+                if closed:
+                    ck.bad('C13.D4.same-buffer', mod, site, PREP, u(site), detail)
+                else:
+                    ck.missing('C13.D4.same-buffer', 'returned object `%s` at %s is not recognised (%s)'
+                               % (u(dv)[:100], mod.loc(site), detail[:70]))
 
     # ---- what the branches tell about None-ness of the current `out` (on a path without
     # rebinding of `out` that is the caller's argument)
@@ -721,6 +1016,7 @@ def d0_validation(ck, mod, PREP, kernels=()):
             ck.bad(rule + '.alloc', mod, prep, PREP, 'allocation',
                    'no default output buffer is allocated when out is None')
     for site, dv in allocs:
+        ck.ok(rule + '.alloc.fresh', mod, site, 'default buffer `%s`' % u(dv)[:80], 'allocated by this call')
         verdict, detail = _alloc_verdict(fi, dv, X, y, ranks)
         ck.decide(verdict, rule + '.alloc', mod, site, PREP, u(site),
                   'default buffer: 1-D float64, one cell per row of X (%s)' % detail,
@@ -1363,9 +1659,7 @@ def raw_compare_scan(ck, mod, kernels, fused):
         return
     rule = 'C13.D5.formula.exact-compare'
     try:
-        import os
-        from .. import core, pyxfront
-        raw = core.Module(LD, mod.src, core._canon_tree(pyxfront.parse_pyx(os.path.join(ck.repo.root, LD), LD)), 'pyx')
+        raw = Module(LD, mod.src, _canon_tree(parse_pyx_x(os.path.join(ck.repo.root, LD), LD)), 'pyx')
     except Exception as e:
         ck.missing(rule, 'kernels %s were recognised as re-spellings of the reference, but the source as written could not be '
                          'parsed again to judge the conversions of its C-typed temporaries (%r)' % (', '.join(spliced), e))
@@ -1395,6 +1689,89 @@ def raw_compare_scan(ck, mod, kernels, fused):
                        % (kern, u(lhs), u(rhs), u(leaves[0]), u(leaves[1]), xd))
 
 
+def _narrowing_scan(k, fi, fn, fused, expr):
+    """Conversions inside `expr` (typecasts, C-typed scalar temporaries - also the bindings of C-typed
+    parameters of inlined cdef helpers) that certainly change some value reaching them.  The widening to a
+    type with at least double's mantissa is what the formula asks for and is never reported (int64 -> double
+    rounds, but that IS the reference computation).  -> [(node, [value types affected], target type)]."""
+    found = []
+
+    def start_types(leaf):
+        """[(fused name or None, type text)] of the values `leaf` can have."""
+        if isinstance(leaf, ast.Subscript) and isinstance(leaf.value, ast.Name) and leaf.value.id in k.buffers:
+            return _elem_alternatives(k, leaf.value.id)
+        t = _CTypes(k, fn, fi, fused, set()).type_of(leaf)
+        if t == 'double':
+            return [(None, 'double')]
+        return []
+
+    def visit(e, depth=0):
+        if depth > 12 or not isinstance(e, ast.AST):
+            return
+        chain, leaf = _conv_chain(fi, fn, e)
+        if chain and leaf is not e:
+            lossy = []
+            for fname, elem in start_types(leaf):
+                cur = _ctype_info(elem)
+                if cur is None:
+                    continue
+                for tx in chain:
+                    T = _ctype_info(elem) if (fname is not None and tx == fname) else _ctype_info(tx)
+                    if T is None:
+                        break
+                    r = _conv_step(cur, T)
+                    if r == 'exact':
+                        continue
+                    if T.kind == 'float' and T.lo >= 53:
+                        cur = T                   # the widening to double (rounds 64-bit integers: reference behaviour)
+                        continue
+                    if r == 'lossy':
+                        lossy.append((elem, tx))
+                    break
+            if lossy:
+                tx = lossy[0][1]
+                found.append((e, sorted({el for el, t in lossy if t == tx}), tx))
+            visit(leaf, depth + 1)
+            return
+        if isinstance(e, ast.Name):
+            # a temporary that is not C-typed / not a single pure definition: judge its definitions once
+            try:
+                defs = fi.defs_of_use(e) if isinstance(e.ctx, ast.Load) else ()
+            except Exception:
+                defs = ()
+            for site in defs:
+                if site in ('PARAM', 'UNBOUND') or id(site) in seen or not isinstance(site, (ast.Assign, ast.AnnAssign)):
+                    continue
+                seen.add(id(site))
+                v = fi.def_value(site, e.id)
+                if v is not None and e.id not in names_loaded(v):
+                    visit(v, depth + 1)
+            return
+        for ch in ast.iter_child_nodes(e):
+            if isinstance(ch, ast.expr):
+                visit(ch, depth + 1)
+    seen = set()
+    visit(expr)
+    return found
+
+
+def _no_rows(k, c, X, out):
+    """The comparison says that the number of rows is zero (`n == 0`, `n < 1`, `n <= 0` with n the extent
+    of dimension 0 of X / out)."""
+    def rows(e):
+        t = norm_extent(e)
+        return bool(k.extent_eq(t, out, 0) or k.extent_eq(t, X, 0))
+    if c.op is ast.Eq:
+        return (rows(c.lhs) and const_value(c.rhs) == 0 and not isinstance(const_value(c.rhs), bool)) or \
+            (rows(c.rhs) and const_value(c.lhs) == 0 and not isinstance(const_value(c.lhs), bool))
+    less = c.as_less()
+    if less is not None:
+        small, strict, big = less
+        b = const_value(big)
+        return rows(small) and isinstance(b, int) and not isinstance(b, bool) and (b <= 1 if strict else b <= 0)
+    return False
+
+
 def _written_term(s, out):
     """The accumulated term of `out[I] += T` / `out[I] = out[I] + T` as written
     (not expanded); None when the store has another shape."""
@@ -1414,6 +1791,221 @@ def _after(fi, a, La, s, Ls):
     if Ls is not None and Ls is La:
         return fi.cfg.reachable(a, s, avoiding=[La])
     return fi.cfg.reachable(a, s)
+
+
+# ---------------------------------------------------------------------------
+# cell form: the running value of row i held in a C scalar local
+#
+#     for i in prange(n):            for i in prange(n):
+#         acc = 0                        out[i] = 0
+#         for j in range(m):    ==       for j in range(m):
+#             acc = acc + T                  out[i] = out[i] + T
+#         out[i] = f(acc)                out[i] = f(out[i])
+#
+# The two programs store the same values into `out` when (a) every use of `acc`
+# lies in the body of the one loop whose variable indexes the store, (b) in
+# every iteration a plain assignment to `acc` comes before every other use
+# (nothing is carried over from another row), (c) the store `out[i] = f(acc)`
+# is executed in every iteration after the last assignment to `acc`, and
+# nothing else touches `out` in that loop, (d) `acc` has the type of the cells
+# of `out` (double), so that no value is converted on the way.  D3 and D5 are
+# decided on the right-hand program (a copy of the module: positions kept);
+# D1/D2 on the kernel as written (there `acc` must be a thread-private C scalar).
+# When (a)-(c) hold but the declared type of `acc` cannot hold a double, the
+# running sum is narrowed at every step: C13.D5.formula.accumulator-type.
+
+_keep_alive = []
+
+
+class _AccToCell(ast.NodeTransformer):
+    def __init__(self, acc, out, idx):
+        self.acc, self.out, self.idx = acc, out, idx
+
+    def visit_Name(self, n):
+        if n.id != self.acc:
+            return n
+        return ast.copy_location(ast.Subscript(value=ast.copy_location(ast.Name(id=self.out, ctx=ast.Load()), n),
+                                               slice=ast.copy_location(ast.Name(id=self.idx, ctx=ast.Load()), n),
+                                               ctx=type(n.ctx)()), n)
+
+
+def _occurrence_stmts(fi, fn, name):
+    """Statements (CFG nodes) in which the local `name` occurs, declarations
+    without a value left out; None when an occurrence cannot be attributed."""
+    out = []
+    for n in walk_local(fn):
+        if not (isinstance(n, ast.Name) and n.id == name):
+            continue
+        try:
+            st = fi.stmt(n)
+        except Exception:
+            st = None
+        if st is None:
+            return None
+        if isinstance(st, ast.AnnAssign) and st.value is None:
+            continue
+        if not any(st is x for x in out):
+            out.append(st)
+    return out
+
+
+def _row_accumulator(mod, fn, k, name, t):
+    """-> None (not a row accumulator / not recognised) | dict(loop, idx, init, finals, stmts)"""
+    fi = k.fi
+    out = params(fn)[2]
+    sts = _occurrence_stmts(fi, fn, name)
+    if not sts:
+        return None
+    # dead initialisers outside every loop (`cdef double acc = 0` at the top) are tolerated when (b) holds
+    finals = [s for s in sts if isinstance(s, ast.Assign) and len(s.targets) == 1 and isinstance(s.targets[0], ast.Subscript)
+              and isinstance(s.targets[0].value, ast.Name) and s.targets[0].value.id == out
+              and name in names_loaded(s.value)]
+    if not finals:
+        return None
+    Li = None
+    for f in finals:
+        tg = f.targets[0]
+        loops = k.enclosing_loops(f)
+        if not (isinstance(tg.slice, ast.Name) and len(loops) == 1 and isinstance(loops[0].target, ast.Name)
+                and loops[0].target.id == tg.slice.id) or (Li is not None and loops[0] is not Li):
+            return None
+        Li = loops[0]
+    idx = Li.target.id
+    inside = [s for s in sts if Li in k.enclosing_loops(s)]
+    outside = [s for s in sts if not any(s is x for x in inside)]
+    for s in outside:
+        ok = isinstance(s, (ast.Assign, ast.AnnAssign)) and not k.enclosing_loops(s) and s.value is not None \
+            and name not in names_loaded(s.value) and isinstance((s.targets[0] if isinstance(s, ast.Assign) else s.target), ast.Name)
+        if not ok:
+            return None
+    defs = [s for s in inside if name in stmt_defs(s)]
+    inits = [s for s in defs if isinstance(s, ast.Assign) and len(s.targets) == 1 and isinstance(s.targets[0], ast.Name)
+             and name not in names_loaded(s.value) and k.enclosing_loops(s) == [Li]]
+    # (b) from the loop header no use is reached without passing an initialiser
+    for s in inside:
+        if any(s is x for x in inits):
+            continue
+        if fi.cfg.reachable(Li, s, avoiding=inits):
+            # an accumulation `acc = acc <op> T` that an iteration reaches with whatever the local held before - and the
+            # value is then stored to the cell of this row - is the scalar form of "accumulate before zeroing"
+            selfacc = s in defs and name in (names_loaded(s.value) if not isinstance(s, ast.AugAssign) else {name})
+            plain = all(isinstance(d, (ast.Assign, ast.AugAssign)) for d in defs)
+            fresh = [d for d in defs if isinstance(d, ast.Assign) and name not in names_loaded(d.value)]
+            if selfacc and plain and fi.cfg.reachable(Li, s, avoiding=fresh) \
+                    and all(isinstance(o, (ast.Assign, ast.AnnAssign)) for o in outside):
+                return {'carried': s, 'loop': Li, 'idx': idx, 'finals': finals, 'type': t}
+            return None
+    if not inits:
+        return None
+    # only plain / augmented assignments to the bare name define it (no tuple targets, no loop target)
+    for s in defs:
+        tg = s.targets[0] if isinstance(s, ast.Assign) and len(s.targets) == 1 else (s.target if isinstance(s, ast.AugAssign) else None)
+        if not (isinstance(tg, ast.Name) and tg.id == name):
+            return None
+    # (c) the store is executed in every iteration, after the last assignment, and is the only access to `out`
+    for f in finals:
+        if any(_after(fi, f, Li, d, Li) for d in defs):
+            return None
+    if any(fi.cfg.reachable(i0, Li, avoiding=finals) for i0 in inits) or any(isinstance(x, (ast.Break, ast.Continue, ast.Return, ast.While))
+                                                               for x in walk_local(Li)):
+        return None
+    for x in walk_local(Li):
+        if isinstance(x, ast.Name) and x.id == out and not any(x is f.targets[0].value for f in finals):
+            return None
+    # the row index is not assigned inside the loop
+    for x in walk_local(Li):
+        if isinstance(x, ast.stmt) and x is not Li and idx in stmt_defs(x):
+            return None
+    return {'loop': Li, 'idx': idx, 'inits': inits, 'finals': finals, 'defs': defs, 'outside': outside, 'type': t}
+
+
+def cell_form(ck, mod, kernels, fused, metric_of):
+    """-> module in which recognised scalar row accumulators are rewritten to
+    the cell they are stored to (`mod` itself when there is none)."""
+    plans = []
+    for kern in kernels:
+        fn = mod.functions.get(kern)
+        if fn is None or len(params(fn)) < 3:
+            continue
+        k = Kernel(mod, fn, fused)
+        out = params(fn)[2]
+        oel = [e for e in (k.buffers.get(out, (None, ''))[1] or '').split('|') if e]
+        for name, t in fn.cy_locals.items():
+            if t.is_buffer or getattr(t, 'pointer', False):
+                continue
+            ra = _row_accumulator(mod, fn, k, name, t)
+            if ra is None:
+                continue
+            if 'carried' in ra:
+                cs = ra['carried']
+                ck.bad('C13.D3.zero-first', mod, cs, kern, 'row accumulator `%s` of `%s[%s]`: %s' % (name, out, ra['idx'], u(cs)),
+                       '%s accumulates the value of row %s in the local `%s` (`%s`, stored by `%s`) but an iteration of `for %s in %s` '
+                       'can reach that statement without first assigning `%s`: the sum starts from what an earlier row (with prange: '
+                       'another thread\'s rows) left there, so the distances depend on the other rows' % (
+                           kern, ra['idx'], name, u(cs), u(ra['finals'][0]), ra['idx'], u(ra['loop'].iter), name))
+                continue
+            info = _ctype_info(t.text)
+            rule = 'C13.D5.formula.accumulator-type'
+            construct = 'cdef %s %s: running value of `%s[%s]`' % (t.text, name, out, ra['idx'])
+            plans.append((kern, name, ra))    # the shape of the computation is judged in cell form whatever the type
+            if (t.text in WIDE or t.base in WIDE) and oel and all(e in WIDE for e in oel):
+                ck.ok(rule, mod, ra['inits'][0], construct, 'the row accumulator has the type of the output cells')
+                continue
+            step = _conv_step(_ctype_info('double'), info) if info is not None else None
+            accumulates = [d for d in ra['defs'] if not any(d is i for i in ra['inits'])]
+            real_terms = any(m in ('euclidean', 'manhattan') for m in metric_of.get(kern, ()))
+            if step == 'lossy' and accumulates and real_terms:
+                ck.bad(rule, mod, accumulates[0], kern, construct,
+                       '%s keeps the running sum of row %s in `cdef %s %s` (`%s`) and stores it to the float64 cell only at the end '
+                       '(`%s`): every partial sum is converted to `%s`, which cannot hold a double (%s), so the distance is '
+                       'rounded/truncated at every step. The accumulator must be a double'
+                       % (kern, ra['idx'], t.text, name, u(accumulates[0]), u(ra['finals'][0]), t.text,
+                          'integer: fractions are dropped' if info.kind == 'int' else '%d-bit mantissa' % info.hi))
+            else:
+                ck.missing(rule, '%s: row accumulator `%s` of type `%s` is not a double: effect of the conversions not decided'
+                           % (kern, name, t.text))
+    if not plans:
+        return mod
+    tree = copy.deepcopy(mod.tree)
+    for a in ('cy_fused', 'cy_externs'):
+        if hasattr(mod.tree, a):
+            setattr(tree, a, getattr(mod.tree, a))
+    clone = Module(mod.rel, mod.src, tree, mod.kind)
+    # positions identify the statements of the copy
+    for kern, name, ra in plans:
+        fn2 = clone.functions[kern]
+        out = params(fn2)[2]
+        key = lambda s: (type(s).__name__, getattr(s, 'lineno', None), getattr(s, 'col_offset', None), u(s))
+        drop = {key(s) for s in ra['outside']}
+        tr = _AccToCell(name, out, ra['idx'])
+
+        def rewrite(body):
+            new = []
+            for s in body:
+                if isinstance(s, ast.AnnAssign) and isinstance(s.target, ast.Name) and s.target.id == name and s.value is None:
+                    continue                  # the declaration
+                if key(s) in drop:
+                    continue                  # dead initialiser outside the loop
+                for f in ('body', 'orelse', 'finalbody'):
+                    b = getattr(s, f, None)
+                    if isinstance(b, list) and b and isinstance(b[0], ast.stmt):
+                        setattr(s, f, rewrite(b) or [ast.copy_location(ast.Pass(), s)])
+                if not isinstance(s, (ast.For, ast.While, ast.If, ast.With, ast.Try)):
+                    s = tr.visit(s)
+                elif isinstance(s, (ast.If, ast.While)):
+                    s.test = tr.visit(s.test)
+                elif isinstance(s, ast.For):
+                    s.iter = tr.visit(s.iter)
+                if isinstance(s, ast.Assign) and len(s.targets) == 1 and u(_strip_wide(s.value)) == u(s.targets[0]):
+                    continue                  # out[i] = out[i]
+                new.append(s)
+            return new
+        fn2.body = rewrite(fn2.body) or [ast.Pass()]
+        fn2.cy_locals = {n: t for n, t in fn2.cy_locals.items() if n != name}
+    ast.fix_missing_locations(tree)
+    clone = Module(mod.rel, mod.src, tree, mod.kind)
+    _keep_alive.append(clone)
+    return clone
 
 
 def d5_formulas(ck, mod, fused, kernel_of):
@@ -1439,7 +2031,11 @@ def d5_formulas(ck, mod, fused, kernel_of):
 
         def E():
             return Expander(fi, pure=CMATH, temp_ok=temp_ok)
-        scalars = set(k.scalars)
+        # scalars whose value is the same in every iteration (extents); a scalar assigned inside a loop
+        # carries a running value: an expression over it is not "a function of the inputs"
+        carried = {nm for st in walk_local(fn) if isinstance(st, ast.stmt) and not isinstance(st, ast.For)
+                   and k.enclosing_loops(st) for nm in stmt_defs(st)}
+        scalars = set(k.scalars) - carried
         # ---- every way `out` is written
         inits, accs, fins = [], [], []
         opaque_store = False
@@ -1531,12 +2127,19 @@ def d5_formulas(ck, mod, fused, kernel_of):
             c = const_value(ev)
             if c in (0, 0.0) and not isinstance(c, bool):
                 ck.ok(rule + '.init', mod, s, u(s), 'cells start at 0')
-            elif _closed(ev, {X, y} | scalars | {l.target.id for l in k.enclosing_loops(s) if isinstance(l.target, ast.Name)}, CMATH):
+            elif _closed(ev, {X, y} | scalars | {l.target.id for l in k.enclosing_loops(s) if isinstance(l.target, ast.Name)}, CMATH) \
+                    and any(fi.cfg.reachable(s, a[0]) for a in accs):
+                # the store is in the role "value the cell has when the accumulation starts"
                 ck.bad(rule + '.init', mod, s, kern, u(s),
                        'the output cell must start at 0 before the per-row sum is accumulated; `%s` makes every '
                        'distance start from another value' % u(s))
             else:
-                ck.missing(rule + '.init', 'initial store `%s` in %s not recognised' % (u(s), kern))
+                opaque_store = True
+                ck.missing(rule + '.init', 'store `%s` in %s not recognised%s' % (
+                    u(s), kern, (' (value of the loop-carried local %s not followed)' % ', '.join(sorted(names_loaded(ev) & carried)))
+                    if names_loaded(ev) & carried else
+                    (' (no accumulation follows it: another way of computing the cells, not compared with the formula)'
+                     if not any(fi.cfg.reachable(s, a[0]) for a in accs) else '')))
 
         # ---- finishing stores: shape, once per cell
         fin_ok = []
@@ -1658,6 +2261,16 @@ def d5_formulas(ck, mod, fused, kernel_of):
                     ck.missing(wrule, '%s: C type of `%s` in the accumulated term not decided' % (kern, u(ct.unknown[0])[:80]))
                 else:
                     ck.ok(wrule, mod, s, u(s), 'every arithmetic operation of the term has a double operand (widened before the operation)')
+                # ... and no value is NARROWED on its way into the term: a typecast / C-typed temporary / C-typed
+                # helper parameter whose type cannot hold every value that reaches it (float for int32/int64/float64
+                # elements or for a double intermediate, an integer type for a double) changes the distance
+                for node, kinds, tx in _narrowing_scan(k, fi, fn, fused, s.value):
+                    ck.bad(rule + '.narrowing', mod, node if hasattr(node, 'lineno') else s, kern,
+                           '%s: a value of the accumulated term is converted to a narrower C type' % metric,
+                           '%s converts `%s` to `%s` inside the accumulated term `%s`: values of type %s are not representable in '
+                           '`%s` (rounded / truncated), so the distance differs from the float64 2-norm / 1-norm of x - y for such data. '
+                           'Elements must be widened to double and stay double' % (
+                               kern, u(node)[:80], tx, u(s.value)[:120], ', '.join(kinds), tx))
             # nothing resets the cell after it was accumulated into
             for z, ztg, _ in inits:
                 _, Lz, _l = idx_loop(z, ztg)
@@ -1694,6 +2307,31 @@ def d5_formulas(ck, mod, fused, kernel_of):
                            ('euclidean must take the square root of each accumulated sum exactly once' if kind == 'sqrt'
                             else 'hamming must divide each row count by n_features once') +
                            ': no such store follows `%s`' % u(s))
+        # ---- every way OUT of the kernel passes the accumulation: a return that can be reached round the
+        # (outermost) loop of an accumulation hands back cells that were not computed by this call
+        seen_loops = []
+        for s, tg, term in accs:
+            loops = k.enclosing_loops(s)
+            if not loops or any(loops[-1] is l for l in seen_loops):
+                continue
+            seen_loops.append(loops[-1])
+            for r in rets:
+                if not fi.cfg.reachable(ENTRY, r, avoiding=[loops[-1]]):
+                    continue
+                conds, cok = _conds_between(mod, r, fn)
+                construct = 'exit `%s` of %s round the loop `for %s in %s`' % (u(r), kern, u(loops[-1].target), u(loops[-1].iter))
+                if cok and conds and not k.enclosing_loops(r) and any(isinstance(c, Cmp) and _no_rows(k, c, X, out) for c in conds):
+                    ck.ok(rule + '.exit', mod, r, construct, 'taken only when there is no row to compute')
+                elif cok and conds and not k.enclosing_loops(r) and all(
+                        isinstance(c, Cmp) and _closed(c.lhs, {X, y, out} | scalars) and _closed(c.rhs, {X, y, out} | scalars)
+                        for c in conds):
+                    ck.bad(rule + '.exit', mod, r, kern, construct,
+                           '%s returns under `%s` without running the accumulation `%s`: for such input the cells of the output '
+                           'buffer are not the distances of this call (stale contents of the caller\'s buffer / zeros / another '
+                           'formula)' % (kern, ' and '.join(repr(c) for c in conds), u(s)))
+                else:
+                    ck.missing(rule + '.exit', '%s: `%s` at %s can be reached without running the accumulation `%s`; the '
+                               'condition of that exit is not recognised' % (kern, u(r), mod.loc(r), u(s)))
         if not accs and not opaque_store:
             ck.bad(rule, mod, fn, kern, kern, 'expected an accumulation `out[i] += term`, found none')
     ck.floor(rule, nacc, 3, 'accumulations into the output buffer')
@@ -2140,7 +2778,7 @@ def d6_registry(ck):
 # ---------------------------------------------------------------------------
 
 def check(ck):
-    mod = ck.repo.mod(LD)
+    mod = load_libdist(ck.repo)
     fused = mod.tree.cy_fused
     kernel_of, kernels, preps = discover(mod, fused)
     if not kernels:
@@ -2151,6 +2789,11 @@ def check(ck):
     for pname in preps:
         d0_validation(ck, mod, pname, kernels)
     nb = np_ = nz = 0
+    metric_of = {}
+    for w, ks in kernel_of.items():
+        for kn in ks:
+            metric_of.setdefault(kn, []).append(w)
+    mod5 = cell_form(ck, mod, kernels, fused, metric_of)       # D3 / D5 see scalar row accumulators as the cell they stand for
     for kern in kernels:
         fn = mod.func(kern)
         d = fn.cy_directives
@@ -2162,16 +2805,17 @@ def check(ck):
         c, k = check_bounds(ck, 'C13.D1.bounds', mod, fn, fused)
         nb += min(c, 4)
         np_ += min(check_prange(ck, 'C13.D2.prange', mod, fn, fused), 1)
-        zf = _zero_first(mod, fn, fused)
-        nzk = check_zero_before_accumulate(_Recheck(ck, zf), 'C13.D3.zero-first', mod, fn, fused)
+        fn5 = mod5.func(kern)
+        zf = _zero_first(mod5, fn5, fused)
+        nzk = check_zero_before_accumulate(_Recheck(ck, zf), 'C13.D3.zero-first', mod5, fn5, fused)
         # read-modify-write spelled as a plain assignment: out[i] = out[i] <op> v
-        o = params(fn)[2]
-        for s in walk_local(fn):
+        o = params(fn5)[2]
+        for s in walk_local(fn5):
             if isinstance(s, ast.Assign) and len(s.targets) == 1 and isinstance(s.targets[0], ast.Subscript) and \
                     isinstance(s.targets[0].value, ast.Name) and s.targets[0].value.id == o and o in names_loaded(s.value):
                 nzk += 1
                 why = zf(s)
-                ck.check(bool(why), 'C13.D3.zero-first', mod, s, kern, u(s), why or '',
+                ck.check(bool(why), 'C13.D3.zero-first', mod5, s, kern, u(s), why or '',
                          'the kernel updates caller-supplied `%s` from its previous contents without first storing '
                          'to that cell: the result depends on what the buffer held before' % o)
         nz += min(nzk, 1)
@@ -2192,7 +2836,7 @@ def check(ck):
     ck.floor('C13.D2.prange', np_, 3, 'kernels with a prange loop')
     ck.floor('C13.D3.zero-first', nz, 3, 'kernels with an accumulation into the output buffer')
     d4_wrappers(ck, mod, kernel_of, preps)
-    d5_formulas(ck, mod, fused, kernel_of)
+    d5_formulas(ck, mod5, fused, kernel_of)
     raw_compare_scan(ck, mod, kernels, fused)
     d6_registry(ck)
     return EXPLANATION
